@@ -425,10 +425,9 @@ namespace details {
 		std::streambuf *setbuf(char *s,std::streamsize size)
 		{
 			if(full_buffering_) {
-				buffer_size_ = size;
 				std::streamsize content_size = pptr() - pbase();
-				if(size_t(size) > output_.size())
-					output_.resize(size);
+				// the buffer grows on demand in this mode; never drop what it already holds
+				buffer_size_ = size > content_size ? size : content_size;
 				do_setp();
 				pbump(content_size);
 				return this;
